@@ -89,8 +89,10 @@ class MidiTrack(object):
         track_data."""
         self.set_deltatime(self.delay)
         self.delay = 0
-        self.set_meter(bar.meter)
-        self.set_deltatime(0)
+        if bar.meter[1] != 0:
+            # (a bar in free time, meter (0, 0), has no time signature)
+            self.set_meter(bar.meter)
+            self.set_deltatime(0)
         self.set_key(bar.key)
         for x in bar:
             tick = int(round((1.0 / x[1]) * 288))
